@@ -1815,7 +1815,11 @@ class ternary(base_quantizer.BaseQuantizer):  # pylint: disable=invalid-name
         thres = self.default_threshold
       else:
         thres = self.threshold
-      q = K.cast(tf.abs(x) >= thres, K.floatx()) * tf.sign(x)
+      # the code is zero only below the threshold: with threshold 0 the input 0
+      # counts as positive (as in binary), sign(0) = 0 would make its code zero
+      k_sign = tf.sign(x)
+      k_sign += (1.0 - tf.abs(k_sign))
+      q = K.cast(tf.abs(x) >= thres, K.floatx()) * k_sign
 
     # ternary ranges from -1 to +1, so we use tanh(x) to be a differentiable
     # version of that.
